@@ -54,10 +54,13 @@ def dfas(n, k, start=0, step=1):
         yield idx, dfa_spec(n, k, idx)
 
 
-def dfa_parts(spec, scheme='s'):
+ALPHABETS = {'ab': ['a', 'b', 'c'], '01': ['0', '1', '2']}
+
+
+def dfa_parts(spec, scheme='s', letters='ab'):
     _, n, k, d, q0, fb = spec
     Q = names(scheme, n)
-    Sg = LETTERS[:k]
+    Sg = ALPHABETS[letters][:k]
     delta = {}
     i = 0
     for q in Q:
@@ -68,9 +71,9 @@ def dfa_parts(spec, scheme='s'):
     return Q, Sg, delta, Q[q0], F
 
 
-def build_dfa(spec, scheme='s'):
+def build_dfa(spec, scheme='s', letters='ab'):
     from gambatools.dfa import DFA
-    Q, Sg, delta, q0, F = dfa_parts(spec, scheme)
+    Q, Sg, delta, q0, F = dfa_parts(spec, scheme, letters)
     return DFA(set(Q), set(Sg), dict(delta), q0, set(F))
 
 
@@ -134,3 +137,47 @@ def build_nfa(spec, scheme='s', eps='', enc='sparse'):
     for (p, a, q) in T:
         delta[p, a].add(q)
     return NFA(set(Q), set(Sg), delta, q0, set(F), eps)
+
+
+# ---------------------------------------------------------------- one live object rewritten in place
+# A second way of presenting the same instances: ONE object per kind whose public fields are cleared and refilled
+# for every instance.  An implementation that remembers anything per object (an attribute on the object, a table
+# keyed by identity) answers for the previous automaton.
+_LIVE = {}
+
+
+def morph_dfa(spec, scheme='s'):
+    from gambatools.dfa import DFA
+    Q, Sg, delta, q0, F = dfa_parts(spec, scheme)
+    D = _LIVE.get('dfa')
+    if D is None:
+        D = _LIVE['dfa'] = DFA(set(Q), set(Sg), dict(delta), q0, set(F))
+        return D
+    D.Q.clear(); D.Q.update(Q)
+    D.Sigma.clear(); D.Sigma.update(Sg)
+    D.delta.clear(); D.delta.update(delta)
+    D.q0 = q0
+    D.F.clear(); D.F.update(F)
+    return D
+
+
+def morph_nfa(spec, scheme='s', eps='', enc='sparse'):
+    Q, Sg, T, q0, F = nfa_parts(spec, scheme, eps)
+    key = ('nfa', enc)
+    N = _LIVE.get(key)
+    if N is None:
+        N = _LIVE[key] = build_nfa(spec, scheme, eps, enc)
+        return N
+    N.Q.clear(); N.Q.update(Q)
+    N.Sigma.clear(); N.Sigma.update(Sg)
+    N.delta.clear()
+    if enc == 'total':
+        for q in Q:
+            for a in Sg + [eps]:
+                N.delta[q, a] = set()
+    for (p, a, q) in T:
+        N.delta[p, a].add(q) if (enc != 'total') else N.delta[p, a].add(q)
+    N.q0 = q0
+    N.F.clear(); N.F.update(F)
+    N.epsilon = eps
+    return N
